@@ -7,7 +7,7 @@ from mc.core.bufgraph import snap
 from mc.gen import messages as G
 
 DEVNAMES = ("A", "B")
-ADDR = ("A", "B", None, "unknown")
+ADDR = ("A", "B", None, "unknown", "")  # "" = a device attribute that is present but empty: it names no device
 POLS = ("Never", "Also", "Only")
 
 
@@ -214,6 +214,8 @@ def send_events(model, kinds):
             if msg_of(kind, dev) is None:
                 continue
             for s in senders:
+                if kind == "enableBLOB" and s is not None and s[0] == "c":
+                    continue  # from a registered client it changes the policy: that is the structural event "enable"
                 yield ("send", kind, dev, s)
 
 
